@@ -361,6 +361,10 @@ class IndexedGrammar:
             When trying to intersection with something else than a regular
             expression or a finite automaton
         """
+        # The submodules may not have been imported by the user
+        # pylint: disable=import-outside-toplevel
+        import pyformlang.regular_expression
+        import pyformlang.finite_automaton
         if isinstance(other, pyformlang.regular_expression.Regex):
             other = other.to_epsilon_nfa()
         if isinstance(other, pyformlang.finite_automaton.FiniteAutomaton):
